@@ -25,6 +25,7 @@ GENERATORS = {
     "MultiFact_gen": "translator.gen_multifact",
     "Validate_gen": "translator.gen_validate",
     "Materialize_gen": "translator.gen_materialize",
+    "Required_gen": "translator.gen_required",
 }
 
 
